@@ -3,7 +3,8 @@ C11 - fixed parameters are honoured at construction, in evaluation and through f
 
 Generated tables (harness/sentinel.py -> lean/VirVerif/Generated/{ParamMap,FitKeywords}.lean), re-proved
 by `lake build` on every run: `ctor_fixed_wins`, `cond_fixed_const`, `fit_keywords_accepted_and_targeted`
-(against the Lean model of scipy's fit-keyword grammar), `ew_lsq_supported_sets`.
+(against the Lean model of scipy's fit-keyword grammar), `ew_lsq_supported_sets_observed` (a recorded table of ONE
+concrete least-squares run per fixed set).
 Numeric side: every table row is re-executed on the real code with concrete numbers; real fits for every
 non-empty proper subset of fixed parameters x data from the family and from other families; the
 least-squares branch of the exponentiated Weibull; ConditionalDistribution (fixed parameter constant in
@@ -862,7 +863,9 @@ def main(ck):
         "scipy optimiser failures (FitError & co.) are scipy's, counted but not reported as violations",
     ]
     ck.partial = {
-        "fixed_survives_fit_partial": "after-fit value of a fixed parameter: proven symbolically under scipy's contract and "
+        "ew_lsq_supported_sets_observed": "the ok / kept flags of the least-squares table are recorded from one concrete "
+                                          "run per (family, fixed set); kept-for-any-data is observed on the real fits",
+        "fixed_survives_fit_partial, fixed_survives_fit_rows_partial": "after-fit value of a fixed parameter: proven symbolically under scipy's contract and "
                                       "over the reals (log(exp v) = v, 1/(1/v) = v); the 1e-12 relative round-off bound "
                                       "is observed on the real fits",
         "free parameters estimated": "that free parameters are finite and moved by the fit is observed, not proven",
